@@ -177,9 +177,9 @@ def formatType (a : Arg) (f : FormatSpec) : Outcome (List Event) :=
   | .bool b => .ok (formatString f (if b then [116, 114, 117, 101] else [102, 97, 108, 115, 101]))
   | .str bs => .ok (formatString f bs)
   | .nullStr => .ok []
-  | .wide src us =>
+  | .wide src m us =>
       -- `ST::char_buffer utf8 = ST::string::from_utf16(text[, size]).to_utf8(); format_string(…, utf8.data(), utf8.size())`
-      (Utf.stringFrom src .checkValidity (some us)).bind fun bs => .ok (formatString f bs)
+      (Utf.stringFrom src m (some us)).bind fun bs => .ok (formatString f bs)
   | .float r => formatFloat f r
 
 /-- the `formatters[]` array of `apply_format` -/
